@@ -191,6 +191,8 @@ def run(ck, w):
                               ("C04.4k", "blockdir::BlockDir::store_or_deduplicate", "transport::Transport::write"),
                               ("C04.4l", "band::Band::close", "jsonio::write_json"),
                               ("C04.4m", "jsonio::write_json", "transport::Transport::write")):
+        if inner_fn == "backup::FileCombiner::drain" and lib.main_body(inner_fn) is None:
+            inner_fn = "backup::FileCombiner::flush"          # drain merged into flush_group, its only caller
         o = ck.ob(rid, "%s propagates a failure of %s" % (fn.split("::")[-1], inner_fn.split("::")[-1]))
         b = w.body(fn)
         evs = events_of(lib, b, inner_fn)
